@@ -1,6 +1,7 @@
 //! vrec: the recorder (drives the real library, writes NDJSON traces) and
 //! the replayer (steps TLC-generated behaviours through the real library).
 mod alloc;
+mod cpumask;
 mod fam_codec;
 mod fam_dispatch;
 mod fam_dist;
@@ -52,6 +53,26 @@ fn usage() -> ! {
 }
 
 fn main() {
+    // Everything runs on a thread with a small stack (VREC_STACK_KB, default 384 KiB): library calls
+    // that put large temporaries on the stack die here instead of going unnoticed on an 8 MiB main stack.
+    // hide CPU features before anything in the process asks for them
+    #[cfg(all(target_arch = "x86_64", target_os = "linux"))]
+    if let Ok(mask) = std::env::var("VREC_CPU_MASK") {
+        if !mask.is_empty() {
+            if let Err(why) = cpumask::install(&mask) {
+                eprintln!("CPUMASK-UNAVAILABLE: {}", why);
+                std::process::exit(77);
+            }
+        }
+    }
+    let kb: usize = std::env::var("VREC_STACK_KB").ok().and_then(|x| x.parse().ok()).unwrap_or(384);
+    let h = std::thread::Builder::new().stack_size(kb * 1024).spawn(real_main).expect("spawn");
+    if h.join().is_err() {
+        std::process::exit(101);
+    }
+}
+
+fn real_main() {
     // panics in the code under test are data, not noise
     std::panic::set_hook(Box::new(|_| {}));
     let args = parse_args();
